@@ -14,5 +14,15 @@ CLAIMED = {
     note="Assumes cbmc 6.11 sound; allocator never fails (library aborts on OOM); memcpy modelled as byte loop in the aliasing "
          "harnesses; bswap inline asm lifted to __builtin_bswap64 by exact template match; pointer-formation UB in next_split is advisory.",
     technique="CBMC bounded symbolic execution of source/byte_buf.c, one-step induction over arbitrary valid states, SAT (minisat/kissat)"),
+ "C09": dict(
+    text="Array list: for each operation (push/pop at both ends, pop_front_n, erase, set_at with gap growth and index*size overflow, "
+         "get/front/back, copy, shrink_to_fit, ensure_capacity, clear, swap_contents, clean_up) one call from an arbitrary valid "
+         "list (static caller storage allocated with exactly its size, or dynamic; storage size fixed per job, length and all bytes "
+         "symbolic, indices unconstrained 64-bit) is compared byte-wise against a reference sequence; swap for element sizes "
+         "1/127/128/129/256/300. Linked list: one operation on arbitrary lists over a node pool, forward walk == expected, backward "
+         "walk == mirror, removed nodes detached.",
+    note="memcpy/memmove modelled as byte loops; qsort (libc) only has its arguments checked; storage <= 9 bytes quick / 16 thorough; "
+         "node pool 5 / 7.",
+    technique="CBMC bounded symbolic execution of array_list.inl/.c and linked_list.inl, one-step induction from arbitrary valid states"),
 }
 NOT_APPLICABLE = {p: PENDING for p in ["C%02d" % i for i in range(1, 21)]}
